@@ -34,11 +34,12 @@ const (
 	KUDP
 	KListener
 	KRegFile
+	KConnUDP // sonic.Dial("udp"): a connected datagram socket behind the stream-like Conn interface
 	NumKinds
 )
 
 func (k Kind) String() string {
-	return [...]string{"conn-dialed", "conn-accepted", "adapter", "fifo-r", "fifo-w", "udp", "listener", "regular-file"}[k]
+	return [...]string{"conn-dialed", "conn-accepted", "adapter", "fifo-r", "fifo-w", "udp", "listener", "regular-file", "conn-udp"}[k]
 }
 
 // Behaviour of a completion handler.
@@ -413,8 +414,25 @@ func (w *World) NewUDP() (*Obj, error) {
 	return w.add(&Obj{Kind: KUDP, PC: pc, Raw: pc.RawFd(), Peer: peer, PeerPort: port}), nil
 }
 
+// NewConnUDP dials a raw UDP peer: a connected UDP socket. Socket errors reach it asynchronously (a datagram sent to
+// a port nobody listens on comes back as ICMP port-unreachable and leaves ECONNREFUSED pending: EPOLLERR alone).
+func (w *World) NewConnUDP() (*Obj, error) {
+	peer, port, err := rawpeer.UDP4([4]byte{127, 0, 0, 1})
+	if err != nil {
+		return nil, err
+	}
+	cn, err := sonic.Dial(w.IOC, "udp", rawpeer.AddrOf(port))
+	if err != nil {
+		syscall.Close(peer)
+		return nil, err
+	}
+	return w.add(&Obj{Kind: KConnUDP, FD: cn, Raw: cn.RawFd(), Peer: peer, PeerPort: port}), nil
+}
+
 func (w *World) NewObj(k Kind, small bool) (*Obj, error) {
 	switch k {
+	case KConnUDP:
+		return w.NewConnUDP()
 	case KConnDialed:
 		return w.NewDialed(small)
 	case KConnAccepted:
@@ -661,7 +679,7 @@ func (w *World) behave(op *Op) {
 	case BDrainOther:
 		// what another handler of the same batch may legitimately do: consume the data whose arrival made the
 		// target ready. The target's own handler then finds nothing and its operation has to stay in flight.
-		if t != nil && !t.Closed && !t.Closing && t.Raw >= 0 && (t.Kind == KConnDialed || t.Kind == KConnAccepted || t.Kind == KFifoR || t.Kind == KUDP) {
+		if t != nil && !t.Closed && !t.Closing && t.Raw >= 0 && (t.Kind == KConnDialed || t.Kind == KConnAccepted || t.Kind == KFifoR || t.Kind == KUDP || t.Kind == KConnUDP) {
 			// (not an adapter: reading behind the back of the net.Conn it owns is not something a program can do through the
 			// API, and its handler would park in net.Conn.Read)
 			d, _, _ := rawpeer.Drain(t.Raw, 1<<20)
@@ -711,7 +729,7 @@ func (w *World) PeerWrite(o *Obj, n int) int {
 	if o.Peer < 0 {
 		return 0
 	}
-	if o.Kind == KUDP {
+	if o.Kind == KUDP || o.Kind == KConnUDP {
 		sa, err := syscall.Getsockname(o.Raw)
 		if err != nil {
 			return 0
@@ -743,7 +761,7 @@ func (w *World) PeerDrain(o *Obj) int {
 }
 
 func (w *World) PeerShutdownWrite(o *Obj) {
-	if o.Peer >= 0 && o.Kind != KUDP {
+	if o.Peer >= 0 && o.Kind != KUDP && o.Kind != KConnUDP {
 		_ = syscall.Shutdown(o.Peer, syscall.SHUT_WR)
 	}
 }
